@@ -48,7 +48,7 @@ STANDARD = {  # crystallographic centering translations (International Tables), 
 }
 
 
-def gen_crystal(ctx: Ctx, kind=None, eighths=True):
+def gen_crystal(ctx: Ctx, kind=None, eighths=True, props=None):
     """lattice ⊗ basis crystal in an orthorhombic (or, for kind 'triclinic', general) cell"""
     rng = ctx.rng
     kind = kind or rng.choice(CENTERINGS + ["halfx", "halfy", "halfz", "super211", "super221", "super222", "generic", "triclinic"])
@@ -64,7 +64,7 @@ def gen_crystal(ctx: Ctx, kind=None, eighths=True):
     lat = {"halfx": [[0, 0, 0], [.5, 0, 0]], "halfy": [[0, 0, 0], [0, .5, 0]], "halfz": [[0, 0, 0], [0, 0, .5]],
            "super211": [[0, 0, 0], [.5, 0, 0]], "super221": [[0, 0, 0], [.5, 0, 0], [0, .5, 0], [.5, .5, 0]],
            "super222": [[i / 2, j / 2, k / 2] for i in (0, 1) for j in (0, 1) for k in (0, 1)],
-           "generic": [[0, 0, 0]], "triclinic": [[0, 0, 0]]}.get(kind) or STANDARD[kind[-1] if kind.startswith("dopant") else kind]
+           "generic": [[0, 0, 0]], "triclinic": [[0, 0, 0]]}.get(kind) or STANDARD[kind[-1] if kind.startswith(("dopant", "mono")) else kind]
     scaled = [[(t[a] + p[a]) % 1.0 for a in range(3)] for t in lat for p in basis]
     numbers = [z for _ in lat for z in nums]
     if kind.startswith("dopant"):  # centred host + one interstitial of another element: the true lattice is primitive
@@ -74,10 +74,34 @@ def gen_crystal(ctx: Ctx, kind=None, eighths=True):
     if kind.startswith("super"):
         lengths = [l * 1.5 for l in lengths]
     cell = np.diag(lengths).tolist()
+    if kind.startswith("mono"):  # centred lattice in a monoclinic (non-orthogonal) cell
+        cell = (np.diag(lengths) + np.array([[0, 0, 0], [0, 0, 0], [rng.uniform(0.3, 0.9), 0, 0]])).tolist()
     if kind == "triclinic":
         cell = (np.diag(lengths) + np.array([[0, 0, 0], [rng.uniform(-.8, .8), 0, 0], [rng.uniform(-.8, .8), rng.uniform(-.8, .8), 0]])).tolist()
-    return dict(kind=kind, cell=cell, numbers=numbers, scaled=scaled, g_max=rng.choice([1.0, 1.25, 1.5]),
-                sigma=rng.choice([0.0, 0.05, 0.1]), occ=rng.choice([1.0, 1.0, 0.5]), cutoff=rng.choice(["taper", "hard"]))
+    out = dict(kind=kind, cell=cell, numbers=numbers, scaled=scaled, g_max=rng.choice([1.0, 1.25, 1.5]),
+               sigma=rng.choice([0.0, 0.05, 0.1]), occ=rng.choice([1.0, 1.0, 0.5]), cutoff=rng.choice(["taper", "hard"]))
+    props = props or rng.choice(["scalar", "scalar", "per-basis", "per-element", "broken"])
+    nb_all = len(basis)
+    if props == "per-basis":  # one value per basis atom, repeated over the lattice translates (the centering survives)
+        sg = [rng.choice([0.0, 0.04, 0.09]) for _ in range(nb_all)]
+        oc = [rng.choice([1.0, 0.7, 0.4]) for _ in range(nb_all)]
+        extra = len(numbers) - len(lat) * nb_all
+        out["sigma"] = [sg[i % nb_all] for i in range(len(lat) * nb_all)] + [0.05] * extra
+        out["occ"] = [oc[i % nb_all] for i in range(len(lat) * nb_all)] + [1.0] * extra
+    elif props == "per-element":
+        from ase.data import chemical_symbols
+
+        out["sigma"] = {chemical_symbols[z]: rng.choice([0.0, 0.04, 0.09]) for z in set(numbers)}
+        out["occ"] = {chemical_symbols[z]: rng.choice([1.0, 0.7]) for z in set(numbers)}
+    elif props == "broken" and len(numbers) > 1:  # per-atom values that differ between translates: the true lattice is primitive
+        out["sigma"] = [rng.choice([0.0, 0.05, 0.12, 0.2]) for _ in numbers]
+        out["occ"] = [rng.choice([1.0, 0.8, 0.5, 0.3]) for _ in numbers]
+        if len(set(zip(out["sigma"], out["occ"]))) == 1:
+            out["occ"][0] = 0.25
+    else:
+        props = "scalar"
+    out["props"] = props
+    return out
 
 
 def build_sf(case, centering="P", lazy=False):
@@ -223,14 +247,21 @@ class C27(Property):
                 k = rng.randrange(len(cr["numbers"]))
                 cr["numbers"].pop(k)
                 cr["scaled"].pop(k)
-            nums = sorted(set(cr["numbers"]))
-            species = "|".join(triples_s([p for p, z in zip(cr["scaled"], cr["numbers"]) if z == n], rat_s) for n in nums)
+            n_at = len(cr["numbers"])
+            if isinstance(cr["sigma"], list) and len(cr["sigma"]) != n_at:  # an atom was dropped above
+                cr["sigma"], cr["occ"], cr["props"] = 0.05, 1.0, "scalar"
+            per_atom = isinstance(cr["sigma"], list)
+            keys = [(z, cr["occ"][i], cr["sigma"][i]) if per_atom else (z,) for i, z in enumerate(cr["numbers"])]
+            species = "|".join(triples_s([p for p, kk in zip(cr["scaled"], keys) if kk == key], rat_s) for key in sorted(set(keys)))
             case = dict(cr, kind="detect")
 
-            def check(out, case=case):
-                impl = auto_detect_centering(make_atoms(case))
+            def check(out, case=case, per_atom=per_atom):
+                if per_atom:
+                    impl = auto_detect_centering(make_atoms(case), site_properties=np.c_[case["occ"], case["sigma"]])
+                else:
+                    impl = auto_detect_centering(make_atoms(case))
                 ctx.agree("auto_detect_centering", case, out.split()[1], impl)
-                ctx.count(f"detect:{case['lattice_kind']}->{impl}")
+                ctx.count(f"detect:{case['lattice_kind']}:{case['props']}->{impl}")
                 ctx.case(case, nontrivial=impl != "P")
 
             case["lattice_kind"] = cr["kind"]
@@ -283,7 +314,7 @@ class C27(Property):
                     ctx.violation("hkl-grid-not-closed-under-negation", case, {"h": h})
                     return
                 worst = max(worst, abs(F[mh] - np.conj(v)))
-            if worst > 2e-5 * scale:
+            if not (worst <= 2e-5 * scale):
                 ctx.violation("friedel-symmetry-broken", case, {"max |F(-h) - conj F(h)|": worst, "max |F|": scale})
             lazy = np.asarray(sf.build(lazy=True).compute().array)
             if not np.allclose(lazy, arr, rtol=1e-6, atol=1e-7 * scale):
@@ -295,12 +326,13 @@ class C27(Property):
             scale = max(np.abs(arr).max(), 1e-30)
             cents = []
             try:
-                cents.append(("auto", auto_detect_centering(atoms)))
+                cents.append(("auto", build_sf(case, "auto").centering))  # detection as StructureFactor runs it (with sigma / occupancy)
             except Exception as e:  # noqa
                 ctx.violation("auto-detect-centering-raises", case, {"error": repr(e)})
-            if case["kind"] in CENTERINGS:
-                cents.append(("declared", case["kind"]))
-                if cents[0][0] == "auto" and cents[0][1] != case["kind"] and case.get("generic_basis"):
+            declared = case["kind"][-1] if case["kind"].startswith("mono") else case["kind"]
+            if declared in CENTERINGS and case.get("props") != "broken":
+                cents.append(("declared", declared))
+                if case["kind"] in CENTERINGS and cents[0][0] == "auto" and cents[0][1] != case["kind"] and case.get("generic_basis"):
                     ctx.violation(f"auto-detect-misses-{case['kind']}-centering", case, {"detected": cents[0][1]})
             for how, c in cents:
                 try:
@@ -312,7 +344,7 @@ class C27(Property):
                     ctx.violation(f"reflection-condition-shape-{c}-centering", case, {"shape": list(mask.shape)})
                     continue
                 worst = float(np.abs(arr[~mask]).max()) if (~mask).any() else 0.0
-                if worst > 2e-5 * scale:
+                if not (worst <= 2e-5 * scale):
                     h = sfP.hkl[~mask][int(np.argmax(np.abs(arr[~mask])))]
                     ctx.violation(f"{how}-{c}-centering-removes-nonzero-reflection", case,
                                   {"centering": c, "hkl": [int(x) for x in h], "|F|": worst, "max |F|": scale})
@@ -336,14 +368,21 @@ class C27(Property):
                 shifted = dict(case, scaled=[[p[a] + n[a] for a in range(3)] for p, n in zip(case["scaled"], case["shifts"])])
                 _, arr2 = F_dict(build_sf(shifted, "P"))
             d = float(np.abs(arr2 - arr).max())
-            if d > 1e-9 * scale:
+            if not (d <= 1e-9 * scale):
                 ctx.violation("lattice-translation-changes-structure-factor", case, {"max diff": d, "max |F|": scale})
+            # default float32 path, shifts of at most two cells: rounding of the positions only (measured 8e-7·max|F|)
+            _, a32 = F_dict(build_sf(case, "P"))
+            small = dict(case, scaled=[[p[a] + max(-2, min(2, n[a])) for a in range(3)] for p, n in zip(case["scaled"], case["shifts"])])
+            _, b32 = F_dict(build_sf(small, "P"))
+            d32 = float(np.abs(b32 - a32).max())
+            if not (d32 <= 2e-5 * max(np.abs(a32).max(), 1e-30)):
+                ctx.violation("lattice-translation-changes-structure-factor-float32", case, {"max diff": d32})
         elif kind == "potential":
             sfa = build_sf(case, "P").build(lazy=False)
             arr3 = np.asarray(sfa.to_3d_array())
             pot = np.fft.ifftn(arr3)
             scale = max(np.abs(pot.real).max(), 1e-30)
-            if np.abs(pot.imag).max() > 2e-5 * scale:
+            if not (np.abs(pot.imag).max() <= 2e-5 * scale):
                 ctx.violation("potential-not-real", case, {"max imag": float(np.abs(pot.imag).max()), "max real": float(scale)})
             p0 = np.asarray(sfa.get_potential_3d())
             # one grid pixel along axis `ax`: the potential must come back rolled (periodic wrap-around)
@@ -353,12 +392,12 @@ class C27(Property):
             p1 = np.asarray(build_sf(shifted, "P").build(lazy=False).get_potential_3d())
             ptp = max(float(p0.max() - p0.min()), 1e-30)
             d = float(np.abs(np.roll(p0, 1, axis=ax) - p1).max())
-            if d > 2e-3 * ptp:
+            if not (d <= 2e-3 * ptp):
                 ctx.violation("potential-not-periodic-under-pixel-shift", case, {"max diff": d, "ptp": ptp})
             whole = dict(case, scaled=[[p[a] + (1.0 if a == ax else 0.0) for a in range(3)] for p in case["scaled"]])
             p2 = np.asarray(build_sf(whole, "P").build(lazy=False).get_potential_3d())
             d2 = float(np.abs(p2 - p0).max())
-            if d2 > 2e-3 * ptp:
+            if not (d2 <= 2e-3 * ptp):
                 ctx.violation("potential-changes-under-lattice-translation", case, {"max diff": d2, "ptp": ptp})
         else:
             raise ValueError(kind)
@@ -370,8 +409,8 @@ class C27(Property):
             self.oracle(ctx, case)
             ctx.case(case)
         kinds = CENTERINGS + ["halfx", "halfy", "halfz", "super211", "super221", "super222", "generic",
-                              "dopantF", "dopantI", "dopantA", "dopantB", "dopantC"]
-        for i in range(ctx.n(36, 360)):
+                              "dopantF", "dopantI", "dopantA", "dopantB", "dopantC", "monoI", "monoC", "monoA", "monoF"]
+        for i in range(ctx.n(66, 660)):
             k = kinds[i % len(kinds)]
             cr = gen_crystal(ctx, kind=k, eighths=False)
             cr["generic_basis"] = True
